@@ -77,7 +77,29 @@ fn check(c: &StoreCase, rec: &mut CaseRec) -> Verdict {
     let mut a = Sess::new();
     a.randomize(c.seed);
     let mut stored_any = false;
-    for l in &c.lines {
+    // A stored program may have been reached through edits: for some lines an earlier,
+    // different definition of the same number is typed first, and an extra DATA line is
+    // added and deleted again. The final stored program is the same.
+    let mut typed: Vec<String> = vec![];
+    for (i, l) in c.lines.iter().enumerate() {
+        let digits: String = l.trim_start().chars().take_while(|ch| ch.is_ascii_digit()).collect();
+        let h = splitmix(c.seed ^ hash_str(l) ^ i as u64);
+        if !digits.is_empty() && digits.len() < 19 && h % 2 == 0 {
+            typed.push(format!("{} {}", digits, ["DATA \"stale\", 99", "REM stale", "PRINT \"old\" : DATA 1,2", "READ Q : DATA \"s\""][(h / 2 % 4) as usize]));
+        }
+        typed.push(l.clone());
+        if !digits.is_empty() && digits.len() < 19 && h % 5 == 0 {
+            if let Ok(n) = digits.parse::<u64>() {
+                if let Some(m) = n.checked_add(1) {
+                    if !c.lines.iter().any(|x| x.trim_start().starts_with(&format!("{} ", m)) || x.trim_start() == m.to_string()) {
+                        typed.push(format!("{} DATA \"gone\", 5", m));
+                        typed.push(format!("{}", m));
+                    }
+                }
+            }
+        }
+    }
+    for l in &typed {
         match a.line(l) {
             Err(Crash(p)) => return Verdict::fail("panic-entering", format!("{:?}: {}", l, p)),
             Ok(r) => {
